@@ -174,6 +174,26 @@ def sdk_error_predicate(code):
     return pred
 
 
+def runtime_predicate(prop, rule):
+    """Full pipeline (build, run the request plan) + oracles: does a violation prop/rule show up?"""
+    import random
+    from e2e import evaluate, plan as planmod
+
+    def pred(spec, slot):
+        try:
+            pl = planmod.build_plan(spec, random.Random(1))
+        except Exception:
+            return False
+        case = {"id": "shrink", "mode": spec.get("mode", "inclass"), "spec": spec, "plan": pl, "boot_fail_runs": []}
+        r = engine.run_case(slot, case)
+        try:
+            vs, _st, _status = evaluate.evaluate_case(case, r)
+        except Exception:
+            return False
+        return any(v["prop"] == prop and v["sig"].get("rule") == rule for v in vs)
+    return pred
+
+
 if __name__ == "__main__":
     # usage: shrink.py <last.json> <case id> <slot> <substring of panic loc or diagnostic>
     d = json.load(open(sys.argv[1]))
@@ -181,6 +201,9 @@ if __name__ == "__main__":
     case = next(c for c in d["cases"] if c["id"] == cid)
     if needle.startswith("E0"):
         pred = sdk_error_predicate(needle)
+    elif needle.startswith("rt:"):
+        _, prop, rule = needle.split(":")
+        pred = runtime_predicate(prop, rule)
     else:
         pred = pavexc_predicate(lambda pv: needle in (pv["class"].get("panic_loc") or "") or any(needle in x for x in pv["class"]["first_lines"]))
     assert pred(case["spec"], slot), "predicate does not hold on the original"
